@@ -296,6 +296,14 @@ pub mod fs {
             Ok(File::ghost(fd))
         }
     }
+    /// stub for std::io::Error::is_interrupted (used by BufWriter::flush_buf and Write::write_all): the ghost
+    /// file never reports EINTR. [measured] CBMC cannot fold io::Error's bit-packed pointer representation,
+    /// so without this cut it explores the "interrupted: drop the error and retry" arm, whose drop glue
+    /// (io::Error -> Custom -> Box<dyn Error> -> any Error impl, io::Error included) recurses through vtables
+    /// to the unwind bound: >12 GiB for a single failing write.
+    pub fn stub_not_interrupted(_e: &io::Error) -> bool {
+        false
+    }
     /// Path whose ghost file id is `fd` (see fd_of).
     pub fn path_for(fd: usize) -> PathBuf {
         let mut s = String::new();
